@@ -2437,3 +2437,287 @@ Proof.
   destruct P as (P1 & P2 & P3 & P4 & P5 & P6 & P7). exists n. exact (conj eq_refl (conj P1 (conj E (conj P6 (conj P7 P5))))).
 Qed.
 
+
+(* ====================================================================================================== *)
+(* P. derived views: textContent and getElementsByTagName are the preorder traversal of the tree *)
+
+Lemma concat_map_flat_map : forall (A B : Type) (f : B -> list A) (g : nat -> list B) (l : list nat),
+  concat (map f (flat_map g l)) = concat (map (fun x => concat (map f (g x))) l).
+Proof. induction l; simpl; auto. rewrite map_app, concat_app, IHl. auto. Qed.
+
+Lemma text_of_nontext : forall h n, is_text h n = false -> text_of h n = [].
+Proof. unfold is_text, text_of. intros. destruct (kind_of h n) as [[]|]; auto; discriminate. Qed.
+
+Lemma text_content_S : forall f h n, text_content (S f) h n =
+  match kind_of h n with
+  | Some (KText s) => Some s
+  | _ => (fix go (l : list nat) : option (list Z) :=
+            match l with
+            | [] => Some []
+            | x :: r => match text_content f h x, go r with Some a, Some b => Some (a ++ b) | _, _ => None end
+            end) (children h n)
+  end.
+Proof. reflexivity. Qed.
+
+Lemma text_content_dfs : forall h, wf h -> forall F n s, text_content F h n = Some s ->
+  s = concat (map (text_of h) (dfs F h n)).
+Proof.
+  intros h W. induction F; intros n s H; try discriminate.
+  rewrite text_content_S in H. simpl dfs. simpl map. simpl concat.
+  destruct (is_text h n) eqn:T.
+  - rewrite (wf_leaf _ W _ T). simpl. unfold is_text, text_of in *. destruct (kind_of h n) as [[]|]; try discriminate.
+    inversion H. rewrite app_nil_r. auto.
+  - rewrite text_of_nontext by auto. simpl. rewrite concat_map_flat_map.
+    assert (G : forall l s0,
+      (fix go (l : list nat) : option (list Z) :=
+         match l with
+         | [] => Some []
+         | x :: r => match text_content F h x, go r with Some a, Some b => Some (a ++ b) | _, _ => None end
+         end) l = Some s0 -> s0 = concat (map (fun x => concat (map (text_of h) (dfs F h x))) l)).
+    { induction l as [|x l IHl]; intros s0 E. inversion E; auto.
+      destruct (text_content F h x) as [a|] eqn:Ea; try discriminate.
+      match type of E with match ?G with _ => _ end = _ => destruct G as [b|] eqn:Eb; try discriminate end.
+      inversion E. simpl. rewrite (IHF _ _ Ea), (IHl _ eq_refl). auto. }
+    apply G. unfold is_text in T. destruct (kind_of h n) as [[]|]; auto; discriminate.
+Qed.
+
+Fixpoint tc_go (rec : nat -> option (list Z)) (l : list nat) : option (list Z) :=
+  match l with
+  | [] => Some []
+  | x :: r => match rec x, tc_go rec r with Some a, Some b => Some (a ++ b) | _, _ => None end
+  end.
+
+Lemma text_content_S' : forall f h n, text_content (S f) h n =
+  match kind_of h n with Some (KText s) => Some s | _ => tc_go (text_content f h) (children h n) end.
+Proof.
+  intros. rewrite text_content_S.
+  assert (E : forall l, (fix go (l : list nat) : option (list Z) :=
+            match l with
+            | [] => Some []
+            | x :: r => match text_content f h x, go r with Some a, Some b => Some (a ++ b) | _, _ => None end
+            end) l = tc_go (text_content f h) l).
+  { induction l; simpl; auto. rewrite IHl. auto. }
+  rewrite E. auto.
+Qed.
+
+Lemma text_content_total : forall h F n, (forall d, deep h n d -> d < F) -> text_content F h n <> None.
+Proof.
+  induction F; intros n B. specialize (B 0 (deep_0 h n)). lia.
+  rewrite text_content_S'.
+  assert (G : forall l, (forall x, In x l -> In x (children h n)) -> tc_go (text_content F h) l <> None).
+  { induction l as [|x l IHl]; intros Hl; simpl. discriminate.
+    assert (Nx : text_content F h x <> None).
+    { apply IHF. intros d Dd. assert (D' : deep h n (S d)) by (econstructor; [apply Hl; simpl; auto|auto]). apply B in D'. lia. }
+    assert (Nl : tc_go (text_content F h) l <> None) by (apply IHl; intros; apply Hl; simpl; auto).
+    destruct (text_content F h x); try congruence. destruct (tc_go (text_content F h) l); try congruence; discriminate. }
+  destruct (kind_of h n) as [[]|]; try discriminate; apply G; auto.
+Qed.
+
+Theorem text_content_spec : forall h n, wf h -> n < length h -> text_content (S (length h)) h n = Some (spec_text h n).
+Proof.
+  intros h n W V. destruct (text_content (S (length h)) h n) as [s|] eqn:E.
+  - f_equal. apply text_content_dfs; auto.
+  - exfalso. revert E. apply text_content_total. intros d D. pose proof (deep_bound _ _ _ W V D). lia.
+Qed.
+
+Fixpoint bt_go (h : heap) (name : Z) (rec : nat -> option (list nat)) (l : list nat) : option (list nat) :=
+  match l with
+  | [] => Some []
+  | x :: r => match rec x, bt_go h name rec r with
+              | Some a, Some b => Some ((if has_name h x name then [x] else []) ++ a ++ b)
+              | _, _ => None
+              end
+  end.
+
+Lemma by_tag_S : forall f h n name, by_tag (S f) h n name =
+  if is_text h n then Some [] else bt_go h name (fun x => by_tag f h x name) (map snd (attrs h n) ++ children h n).
+Proof.
+  intros. simpl. destruct (is_text h n); auto.
+  generalize (map snd (attrs h n) ++ children h n). induction l; simpl; auto. rewrite IHl. auto.
+Qed.
+
+Lemma filter_flat_map : forall (p : nat -> bool) (g : nat -> list nat) l,
+  filter p (flat_map g l) = flat_map (fun x => filter p (g x)) l.
+Proof. induction l; simpl; auto. rewrite filter_app, IHl. auto. Qed.
+
+Lemma by_tag_dfs : forall h name, wf h -> noattr h -> forall F n l, by_tag F h n name = Some l ->
+  l = filter (fun x => has_name h x name) (tl (dfs F h n)).
+Proof.
+  intros h name W Na. induction F; intros n l H; try discriminate.
+  rewrite by_tag_S in H. simpl dfs. simpl tl. destruct (is_text h n) eqn:T.
+  - inversion H. rewrite (wf_leaf _ W _ T). auto.
+  - rewrite (Na n) in H. simpl in H. rewrite filter_flat_map.
+    revert l H. generalize (children h n). induction l as [|x xs IHl]; intros r H; simpl in H.
+    + inversion H; auto.
+    + destruct (by_tag F h x name) as [a|] eqn:Ea; try discriminate.
+      destruct (bt_go h name (fun x0 => by_tag F h x0 name) xs) as [b|] eqn:Eb; try discriminate.
+      inversion H. simpl. rewrite <- (IHl b eq_refl). rewrite app_assoc. f_equal.
+      destruct F; try discriminate. rewrite (IHF x a Ea). simpl. destruct (has_name h x name); auto.
+Qed.
+
+Lemma by_tag_total : forall h name F n, (forall d, deep h n d -> d < F) -> noattr h -> by_tag F h n name <> None.
+Proof.
+  induction F; intros n B Na. specialize (B 0 (deep_0 h n)). lia.
+  rewrite by_tag_S. destruct (is_text h n); try discriminate. rewrite (Na n). simpl.
+  assert (G : forall l, (forall x, In x l -> In x (children h n)) -> bt_go h name (fun x => by_tag F h x name) l <> None).
+  { induction l as [|x l IHl]; intros Hl; simpl. discriminate.
+    assert (Nx : by_tag F h x name <> None).
+    { apply IHF; auto. intros d Dd. assert (D' : deep h n (S d)) by (econstructor; [apply Hl; simpl; auto|auto]). apply B in D'. lia. }
+    assert (Nl : bt_go h name (fun x0 => by_tag F h x0 name) l <> None) by (apply IHl; intros; apply Hl; simpl; auto).
+    destruct (by_tag F h x name); try congruence. destruct (bt_go h name (fun x0 => by_tag F h x0 name) l); try congruence; discriminate. }
+  apply G; auto.
+Qed.
+
+Theorem by_tag_spec : forall h n name, wf h -> noattr h -> n < length h ->
+  by_tag (S (length h)) h n name = Some (spec_by_tag h n name).
+Proof.
+  intros h n name W Na V. destruct (by_tag (S (length h)) h n name) as [l|] eqn:E.
+  - f_equal. apply by_tag_dfs; auto.
+  - exfalso. revert E. apply by_tag_total; auto. intros d D. pose proof (deep_bound _ _ _ W V D). lia.
+Qed.
+
+(* ====================================================================================================== *)
+(* Q. the normalized tree: same text, no adjacent text children, idempotent (facts about the Spec function) *)
+
+Fixpoint tree_size (t : tree) : nat := match t with T _ kids => S (fold_right (fun x a => tree_size x + a) 0 kids) end.
+
+Definition tree_ind' (P : tree -> Prop)
+  (H : forall k kids, (forall x, In x kids -> P x) -> P (T k kids)) : forall t, P t :=
+  fix IH (t : tree) : P t :=
+    match t with
+    | T k kids =>
+        H k kids ((fix IHl (l : list tree) : forall x, In x l -> P x :=
+                     match l with
+                     | [] => fun x (i : In x []) => match i with end
+                     | y :: r => fun x (i : In x (y :: r)) =>
+                                   match i with
+                                   | or_introl e => eq_ind y P (IH y) x e
+                                   | or_intror i' => IHl r x i'
+                                   end
+                     end) kids)
+    end.
+
+Lemma merge_text_text : forall l, concat (map tree_text (merge_text l)) = concat (map tree_text l).
+Proof.
+  induction l as [|t r IH]; simpl; auto.
+  destruct t as [k kids]. destruct k as [[n|s| |]|]; simpl; try (rewrite IH; auto).
+  destruct (merge_text r) as [|[[[n'|s'| |]|] kids'] r'] eqn:E; simpl in *; rewrite <- IH; simpl; auto.
+  rewrite app_assoc. auto.
+Qed.
+
+Theorem norm_tree_text : forall t, tree_text (norm_tree t) = tree_text t.
+Proof.
+  induction t as [k kids IH] using tree_ind'. simpl. destruct k as [[n|s| |]|]; auto;
+    rewrite merge_text_text, map_map; f_equal; apply map_ext_In; auto.
+Qed.
+
+Lemma merge_text_head : forall l, match merge_text l with
+                                  | t :: _ => is_text_leaf t = true -> exists s, t = T (Some (KText s)) []
+                                  | [] => True end.
+Proof.
+  destruct l as [|t r]; simpl; auto.
+  destruct t as [[[n|s| |]|] kids]; simpl; try discriminate.
+  destruct (merge_text r) as [|[[[n'|s'| |]|] kids'] r']; eauto.
+Qed.
+
+Lemma adjacent_cons : forall a b r, adjacent_text (a :: b :: r) = (is_text_leaf a && is_text_leaf b) || adjacent_text (b :: r).
+Proof. reflexivity. Qed.
+
+Lemma merge_text_no_adjacent : forall l, adjacent_text (merge_text l) = false.
+Proof.
+  induction l as [|t r IH]; auto. cbn [merge_text].
+  destruct (text_leaf t) as [s|] eqn:Lt.
+  - destruct (merge_text r) as [|b r'] eqn:E; auto.
+    destruct (text_leaf b) as [sb|] eqn:Lb.
+    + assert (Hb : exists kb, b = T (Some (KText sb)) kb).
+      { destruct b as [[[ | | | ]|] kb]; simpl in Lb; try discriminate. inversion Lb. eauto. }
+      destruct Hb as [kb ->].
+      destruct r' as [|c r'']; auto.
+    + destruct b as [[[nb|sb'| |]|] kb]; simpl in Lb; try discriminate; exact IH.
+  - destruct (merge_text r) as [|b r'] eqn:E; auto.
+    rewrite adjacent_cons. unfold is_text_leaf at 1. rewrite Lt. auto.
+Qed.
+
+Lemma merge_text_forall : forall (P : tree -> bool) l, (forall s, P (T (Some (KText s)) []) = true) ->
+  forallb P l = true -> forallb P (merge_text l) = true.
+Proof.
+  intros P l Ht. induction l as [|t r IH]; simpl; auto. intros H. apply andb_true_iff in H. destruct H as [H1 H2].
+  specialize (IH H2).
+  destruct t as [[[n|s| |]|] kids]; simpl; try (rewrite H1, IH; auto).
+  destruct (merge_text r) as [|[[[n'|s'| |]|] kids'] r']; simpl in *; rewrite ?Ht; auto.
+  apply andb_true_iff in IH. tauto.
+Qed.
+
+Theorem norm_tree_no_adjacent : forall t, no_adjacent (norm_tree t) = true.
+Proof.
+  induction t as [k kids IH] using tree_ind'. simpl. rewrite merge_text_no_adjacent. simpl.
+  apply merge_text_forall; auto. apply forallb_forall. intros x Ix. apply in_map_iff in Ix. destruct Ix as (y & <- & Iy). auto.
+Qed.
+
+Lemma merge_text_elems : forall l y, In y (merge_text l) ->
+  (exists s, y = T (Some (KText s)) []) \/ (In y l /\ text_leaf y = None).
+Proof.
+  induction l as [|t r IH]; simpl; intros y I; try contradiction.
+  destruct (text_leaf t) as [s|] eqn:Lt.
+  - destruct (merge_text r) as [|b r'] eqn:E.
+    + destruct I as [<-|[]]. eauto.
+    + assert (C : In y (T (Some (KText s)) [] :: b :: r') \/ (exists s', y = T (Some (KText s')) []) \/ In y r').
+      { destruct b as [[[nb|sb| |]|] kb]; auto. destruct I as [<-|I]; eauto. }
+      destruct C as [[<-|C]|[C|C]]; eauto.
+      * destruct (IH y C) as [A|[A B]]; auto.
+      * destruct (IH y (or_intror C)) as [A|[A B]]; auto.
+  - destruct I as [<-|I]; auto. destruct (IH y I) as [A|[A B]]; auto.
+Qed.
+
+Lemma merge_text_fixed : forall l, adjacent_text l = false ->
+  (forall t s kb, In t l -> t = T (Some (KText s)) kb -> kb = []) -> merge_text l = l.
+Proof.
+  induction l as [|t r IH]; intros A K; auto. cbn [merge_text].
+  assert (Ar : adjacent_text r = false).
+  { destruct r as [|b r']; auto. rewrite adjacent_cons in A. apply orb_false_iff in A. tauto. }
+  rewrite (IH Ar) by (intros; eapply K; eauto; simpl; auto).
+  destruct (text_leaf t) as [s|] eqn:Lt; auto.
+  assert (Ht : t = T (Some (KText s)) []).
+  { destruct t as [[[ | | | ]|] kb]; simpl in Lt; try discriminate. inversion Lt; subst.
+    rewrite (K _ _ _ (or_introl eq_refl) eq_refl). auto. }
+  subst t. destruct r as [|b r']; auto.
+  rewrite adjacent_cons in A. apply orb_false_iff in A. destruct A as [A _]. simpl in A.
+  destruct b as [[[nb|sb| |]|] kb]; auto. simpl in A. discriminate.
+Qed.
+
+Theorem norm_tree_idempotent : forall t, norm_tree (norm_tree t) = norm_tree t.
+Proof.
+  induction t as [k kids IH] using tree_ind'. simpl. f_equal.
+  set (M := merge_text (map norm_tree kids)).
+  assert (Fix : map norm_tree M = M).
+  { rewrite <- (map_id M) at 2. apply map_ext_In. intros y Iy.
+    destruct (merge_text_elems _ _ Iy) as [[s ->]|[I _]]; auto.
+    apply in_map_iff in I. destruct I as (x & <- & Ix). auto. }
+  rewrite Fix. apply merge_text_fixed.
+  - apply merge_text_no_adjacent.
+  - intros t s kb It ->. destruct (merge_text_elems _ _ It) as [[s' E]|[_ L]]. inversion E; auto. simpl in L. discriminate.
+Qed.
+
+(* ====================================================================================================== *)
+(* R. compareDocumentPosition: a known finding (the faithful Model diverges exactly where the code does) *)
+
+Definition stale_cycle_history : list op :=
+  [OCreateDoc; OCreateElem 0 0; OCreateElem 0 1; OCreateText 0 [97%Z]; OCreateText 0 [98%Z]; OCreateText 0 [99%Z];
+   OAppend 1 2; ORemoveChild 1 2;      (* n2 keeps parentNode = n1 *)
+   OAppend 2 1;                        (* n1 becomes a child of n2: the stale link of the root n2 leads back into its tree *)
+   OAppend 1 3; OAppend 1 4; OAppend 1 5].
+
+Theorem compare_stale_cycle_refuted :
+  exists (ops : list op) (s o : nat),
+    forallb covered ops = true /\ adm_hist [] ops = true /\
+    let h := run [] ops in
+    wf_b h = true /\ root_of h s = root_of h o /\ spec_compare h s o = POS_FOLLOWING /\ compare_pos h s o = VHang.
+Proof. exists stale_cycle_history, 3, 5. vm_compute. repeat split. Qed.
+
+Theorem text_content_spec_b : forall (h : heap) (n : nat), wf_b h = true -> n < length h ->
+    text_content (S (length h)) h n = Some (concat (map (text_of h) (dfs (S (length h)) h n))).
+Proof. intros h n W V. apply wf_b_iff in W. apply text_content_spec; auto. Qed.
+
+Theorem by_tag_spec_b : forall (h : heap) (n : nat) (name : Z), wf_b h = true -> no_attrs h = true -> n < length h ->
+    by_tag (S (length h)) h n name = Some (filter (fun x => has_name h x name) (tl (dfs (S (length h)) h n))).
+Proof. intros h n name W N V. apply wf_b_iff in W. apply no_attrs_noattr in N. apply by_tag_spec; auto. Qed.
